@@ -217,3 +217,29 @@ package cache
 //@   requires o != nil
 //@   ensures o.NotFoundExpiry == expiry
 //@   modifies o.NotFoundExpiry
+
+// the context-free entry points of a cache node are the Ctx ones under a background context, with the caller's arguments
+//@ func (c cacheNode) Del
+//@   property C06
+//@   requires cOK(c)
+//@   call DelCtx#0: assert sameSlice(arg_keys, keys) && ctxNoDeadline[arg_ctx]
+//@ func (c cacheNode) Get
+//@   property C06
+//@   requires cOK(c)
+//@   call GetCtx#0: assert arg_key == key && arg_val == val
+//@ func (c cacheNode) Set
+//@   property C06
+//@   requires cOK(c) && c.expiry >= 2
+//@   call SetCtx#0: assert arg_key == key && arg_val == val
+//@ func (c cacheNode) SetWithExpire
+//@   property C06
+//@   requires c.rds != nil
+//@   call SetWithExpireCtx#0: assert arg_key == key && arg_val == val && arg_expire == expire
+//@ func (c cacheNode) Take
+//@   property C06 C07
+//@   requires cOK(c)
+//@   call TakeCtx#0: assert arg_key == key && arg_val == val && arg_query == query
+//@ func (c cacheNode) TakeWithExpire
+//@   property C06 C07
+//@   requires cOK(c)
+//@   call TakeWithExpireCtx#0: assert arg_key == key && arg_val == val && arg_query == query
